@@ -28,15 +28,16 @@ type HarnessDef struct {
 }
 
 type PropDef struct {
-	ID           string
-	Harnesses    []HarnessDef
-	Exhaustive   bool
-	Pkgs         []string
-	AssertPrefix string
-	RaceReplay   bool // counterexamples are confirmed by a -race build of the native harness
-	Bounds       string
-	Assumptions  []string
-	Outside      string
+	ID            string
+	Harnesses     []HarnessDef
+	Exhaustive    bool
+	Pkgs          []string
+	AssertPrefix  string
+	RaceReplay    bool // counterexamples are confirmed by a -race build of the native harness
+	ReinitGlobals bool
+	Bounds        string
+	Assumptions   []string
+	Outside       string
 }
 
 type Finding struct {
@@ -155,6 +156,7 @@ func RunCheck(cfg CheckConfig) int {
 	P.OpenFindings = map[string]bool{}
 	P.WantKnownVectors = true
 	P.AssertPrefix = pd.AssertPrefix
+	P.ReinitGlobals = pd.ReinitGlobals
 	findingText := map[string]Finding{}
 	for _, f := range findings {
 		if f.Status == "open" && f.Property == cfg.Property {
